@@ -52,7 +52,7 @@ MARK = ('none', 'cancel', 'stop', 'raise', 'nohandler')
 
 
 def programs(tier):
-    """(parents, edges, marks, rootmark, variant)  variant: 'single' | 'double' | ('nested', node)"""
+    """(parents, edges, marks, rootmark, variant)  variant: 'single' | 'double' | 'again' | ('nested', node)"""
     maxn = 5 if tier == 'quick' else 6
     for par in shapes(maxn):
         n = len(par)
@@ -69,6 +69,7 @@ def programs(tier):
                 variants = ['single']
                 if full:
                     variants.append('double')
+                    variants.append('again')     # the same root fired a second time after the first tree has drained completely
                     variants += [('nested', i) for i in range(1, n) if marks[i - 1] != 'cancel']
                 for v in variants:
                     yield par, edges, (rootmark,) + marks, v
@@ -181,10 +182,13 @@ def execute(program):
         w.fire('n0', {'complete': True})
         if variant == 'double':
             w.fire('n0', {'complete': True})
+        if variant == 'again':
+            w.counted_again = getattr(w, 'counted_again', 0) + 1
     # named observers only: a catch-all observer would give every event a handler
     ghost.World.observe_names = ['n%d_complete' % i for i in range(len(par))] + ['exception']
     try:
-        w = ghost.RunWorld(build(program), script=[None, go], horizon=60)
+        script = [None, go] + (['quiet', go] if variant == 'again' else [])
+        w = ghost.RunWorld(build(program), script=script, horizon=60 if variant != 'again' else 120)
     finally:
         ghost.World.observe_names = None
     res = w.run()
